@@ -29,6 +29,8 @@ common.repo_on_path()
 
 SETTLE = 20.0
 WATCHDOG = 15
+STREAM_BASE = 900000        # exec token of a fetched stream item = STREAM_BASE + the item (see LoopRig: get_next_stream_item)
+STREAM_PLACEHOLDER = b"00000000-0000-0000-0000-000000000000"    # stands for the stream id the daemon will have handed out
 
 
 class PeerSock(srvkit.FakeSock):
@@ -195,8 +197,39 @@ class LoopRig(srvkit.Rig):
                 e = ValueError("boom %d" % token)
                 e.extra = poison_value(kind)
                 raise e
+
+            def commfail(self, kind, token):
+                """what a method gets when a NESTED proxy call of its own fails: a Pyro CommunicationError that is neither
+                ConnectionClosedError nor SerializeError"""
+                from Pyro5 import errors
+                conn = rig.ctx.client
+                with rig.lock:
+                    rig.execs.append((conn.sock.index if conn is not None else -1, token))
+                cls = {"timeout": errors.TimeoutError, "protocol": errors.ProtocolError,
+                       "toolarge": errors.MessageTooLargeError, "comm": errors.CommunicationError}[kind]
+                raise cls("nested call failed %d" % token)
         self.Poison = Poison
         self.daemon.register(Poison(), "poison")
+        # fetching an item of a stream is a call like any other: log it (token = STREAM_BASE + the item it returned)
+        from Pyro5 import core as _core
+        dobj = self.daemon.objectsById[_core.DAEMON_NAME]
+        inner = dobj.get_next_stream_item
+
+        def get_next_stream_item(streamId, _inner=inner):
+            result = _inner(streamId)
+            conn = rig.ctx.client
+            if isinstance(result, int):
+                with rig.lock:
+                    rig.execs.append((conn.sock.index if conn is not None else -1, STREAM_BASE + result))
+            return result
+        for tag in ("_pyroExposed", "_pyroOneway", "_pyroCallback", "__name__", "__doc__"):
+            if hasattr(inner, tag):
+                try:
+                    setattr(get_next_stream_item, tag, getattr(inner, tag))
+                except (AttributeError, TypeError):
+                    pass
+        dobj.get_next_stream_item = get_next_stream_item
+        self.housekeeper_died = None
         srv = self.daemon.transportServer
         if servertype == "thread":
             self.listener = srvkit.FakeListener()
@@ -309,9 +342,37 @@ class LoopRig(srvkit.Rig):
                     self.spun = True
                     raise
             self.settle_pool()
+            self.housekeep()
         elif self.loop_alive:
             self._run_loop()
         self._wait_oneway()
+
+    def housekeep(self):
+        """thread server: one pass of the housekeeper thread (it calls daemon._housekeeping() every few seconds: any moment
+        between two deliveries is one at which it may run; the multiplex loop calls it itself after every round of events).
+        An exception ends the housekeeper thread, not the request loop: recorded, no further passes."""
+        if self.housekeeper_died is None:
+            try:
+                self.daemon._housekeeping()
+            except Exception as x:
+                self.housekeeper_died = repr(x)
+
+    def stream_id(self, idx):
+        """the id of the item stream the daemon opened last on connection idx (STRM annotation of its reply), or None"""
+        from Pyro5 import protocol
+        if idx >= len(self.socks):
+            return None
+        data = bytes(self.socks[idx].sent)
+        pos, found = 0, None
+        while pos + 40 <= len(data):
+            hdr = data[pos:pos + 40]
+            dsz = int.from_bytes(hdr[12:16], "big")
+            asz = int.from_bytes(hdr[16:20], "big")
+            m = protocol.ReceivingMessage(hdr, data[pos + 40:pos + 40 + dsz + asz])
+            if "STRM" in m.annotations:
+                found = bytes(m.annotations["STRM"])
+            pos += 40 + dsz + asz
+        return found
 
     def settle_pool(self):
         """wait until every finished job's worker has told the pool (Worker.run: notify_done after the job)"""
